@@ -174,6 +174,8 @@ func candidates(sc *Scenario) []*Scenario {
 		return ok
 	})
 	add(func(c *Scenario) bool { ok := c.LogErr; c.LogErr = false; return ok })
+	add(func(c *Scenario) bool { ok := c.LogDiscard; c.LogDiscard = false; return ok })
+	add(func(c *Scenario) bool { ok := c.Writer.Locker != ""; c.Writer.Locker = ""; return ok })
 	add(func(c *Scenario) bool { ok := c.OuterBuf; c.OuterBuf = false; return ok })
 	add(func(c *Scenario) bool { ok := c.IDScheme != 0; c.IDScheme = 0; return ok })
 	add(func(c *Scenario) bool { ok := c.UseTaskMap; c.UseTaskMap = false; return ok })
